@@ -400,7 +400,7 @@ impl Enumerate for TupleIterator {
   }
 
   fn size_hint(&self) -> Option<usize> {
-    Some(self.tuple.len())
+    Some(self.tuple.len() - self.index)
   }
 
   fn as_debug(&self) -> &dyn DebugHeap {
